@@ -89,7 +89,7 @@ open YaraModel.ReVm in
     The de-duplication only drops EQUAL fibers, the pass keeps the successors of every accepted fiber and the callback is
     called for every fiber at MATCH, so nothing on the path is lost.  (First half of VM completeness; the second half —
     every match of the expression yields an accepting path through the emitted code — is proved for hex patterns,
-    Thm/C02 `vm_complete_hex_partial`; for regular expressions with ε-loops and counted repeats it is open.) -/
+    Thm/C02 `vm_complete_hex`; for regular expressions with ε-loops and counted repeats it is open.) -/
 theorem vm_reports_accepting (e : Env) (hx : e.fl.exhaustive = true) (hs : e.fl.scan = false) (m : Int) (c : List Nat)
     (h : exec e = .done m c) (n : Nat) (hacc : AccU e n { ip := e.entry } 0) : n * e.cs ∈ c :=
   exec_complete e hx hs m c h n hacc
